@@ -314,3 +314,11 @@ def run_case(case):
     if case["fn"] in ("rand_argmax", "rand_argmin"):
         return _check_rand_arg(case)
     return _check_simple_batch(case)
+
+
+def extra_engines(tier, seed):
+    """Thorough tier: the same generator/oracle driven by atheris
+    (coverage-guided) - see vp/fuzz_atheris.py."""
+    from .. import fuzz_atheris
+    return fuzz_atheris.extra(PROPERTY_ID, tier, seed, runs=120000,
+                              timeout=900)
